@@ -533,7 +533,10 @@ pub fn gen_op(rng: &mut Rng, p: &Proxy, s: &Snap) -> (String, Op) {
     let subkeys: Vec<&String> = s.raw.keys().chain(s.perms.keys()).collect();
     let any = |rng: &mut Rng| rng.pick_cloned(&pl.actors);
     let admin_or_any = |rng: &mut Rng| {
-        if !admins.is_empty() && rng.chance(3, 4) {
+        if !admins.is_empty() && rng.chance(1, 25) {
+            // a look-alike of an admin: same address in upper case (a different account)
+            (*rng.pick(&admins)).to_uppercase()
+        } else if !admins.is_empty() && rng.chance(3, 4) {
             (*rng.pick(&admins)).clone()
         } else {
             rng.pick_cloned(&pl.actors)
